@@ -479,7 +479,8 @@ structure Store where
   deriving DecidableEq, Repr
 
 inductive Op where
-  | query (d : Nat) (k : Nat)            -- any of the read-only accessors
+  | query (d : Nat) (k : Nat)            -- any of the read-only accessors, for every class of the diagram
+  | access (d : Nat) (c : Nat) (k : Nat)  -- one read-only accessor for one class (`get_out_edges(C<c>)`, …)
   | render (d : Nat) (withAssoc : Bool)  -- `_build_rxnode_tree` / `visualize`
   | copy (d : Nat)                        -- `copy.copy(diagram)`
   | sub (d : Nat) (withField : Bool)      -- `to_subdiagram_without_inherited_associations(include_field_name)`
@@ -495,6 +496,7 @@ gives the result its own copy of the graph. The second component says whether ed
 that existed before. -/
 def stepOp (q : Quirks) (s : Store) : Op → Store × Bool
   | .query _ _ => (s, false)
+  | .access _ _ _ => (s, false)
   | .render _ _ => (s, false)
   | .copy d =>
     (match s.diagrams[d]? with
@@ -535,5 +537,29 @@ def changes (q : Quirks) (s : Store) : List Op → List (List (Nat × Option Gra
 def specChanges (ops : List Op) : List (List (Nat × Option Graph)) := ops.map (fun _ => [])
 
 def Store.init (g : Graph) : Store := ⟨[g], [0]⟩
+
+/-! ### What the accessors report
+
+`get_out_edges(c)` / `get_outgoing_relations(c)` are `_dependency_graph.out_edges(index of c)` of the diagram they are
+called on (`get_associations_with_condition`, `get_outgoing/incoming_neighbors_with_relation_type` are filters of the
+same data). Whatever caching the implementation uses, the property demands that every diagram keeps reporting its
+own graph, no matter which other diagram (source or derived view) was read before. -/
+
+/-- `get_out_edges(c)` on a diagram whose graph is `g` -/
+def outEdges (g : Graph) (c : Nat) : List Edge := g.edges.filter (fun e => e.src == c)
+
+/-- everything the per-class accessors of a diagram report, class by class -/
+def reported (g : Graph) : List Edge := g.nodes.flatMap (outEdges g)
+
+/-- every edge starts and ends at a node of the graph -/
+def Graph.Closed (g : Graph) : Prop := ∀ e ∈ g.edges, e.src ∈ g.nodes ∧ e.dst ∈ g.nodes
+
+/-- observation after a run: the diagrams whose accessor reports differ (as a set of edges) from their graph -/
+def misreported (s : Store) : List (Nat × List Edge) :=
+  (List.range s.diagrams.length).filterMap fun d =>
+    match s.graphOf d with
+    | some g => if (reported g).all (g.edges.contains ·) && g.edges.all ((reported g).contains ·) then none
+                else some (d, reported g)
+    | none => none
 
 end KrroodVerif.CD
